@@ -98,6 +98,20 @@ func c18One(p *run.Part, spec entrySpec, wk string) {
 			}
 		}
 	}
+	if wk != "none" && hasLinks {
+		// the entry object is written once more by code that knows nothing of the key (Entry.ToMultihash uses the default
+		// codec: re-checking a hash, pinning after the fact): a sealed entry stays sealed whoever writes it
+		st3 := store.New()
+		if h3, err := e.(*entry.Entry).ToMultihash(world.Ctx, st3, nil); err == nil {
+			if raw3, ok := st3.Raw(h3); ok {
+				if nd3, err := store.Decode(h3, raw3); err == nil {
+					if n := len(nd3.Links()); n != 0 {
+						viol("-", "leak:ipld-links:rewritten-by-default-codec", fmt.Sprintf("the keyed entry written again through the default codec exposes %d traversable links", n))
+					}
+				}
+			}
+		}
+	}
 	raw, ok := st.Raw(e.GetHash())
 	if !ok {
 		viol("-", "block-missing", "entry block not stored")
